@@ -339,6 +339,22 @@ func Div(a, b *Term) *Term {
 	if b.IsConst() && b.C == 1 {
 		return a
 	}
+	if b.IsConst() && b.C > 1 && a.C%b.C == 0 {
+		// every coefficient is a multiple of the divisor: the quotient is exact
+		exact := len(a.K) > 0
+		for _, c := range a.K {
+			if c%b.C != 0 {
+				exact = false
+			}
+		}
+		if exact {
+			n := Const(a.C / b.C)
+			for _, k := range a.keys() {
+				n = n.AddScaled(FromAtom(a.Atoms[k]), a.K[k]/b.C)
+			}
+			return n
+		}
+	}
 	return FromAtom(&Atom{Kind: "div", Sub: []*Term{a, b}})
 }
 
